@@ -20,6 +20,23 @@ Fixpoint dedup (l : list (Z * Z)) : list (Z * Z) :=
       end
   end.
 
+(* NEO.GetGASPerBlock(index) and the sum of CalculateNEOHolderReward, read from the cached history: the cache is the
+   append-only slice (here newest first), scanned from the newest record: of several records with one index the one
+   appended LAST answers *)
+Definition gas_per_block (st : state) (idx : Z) : Z := gpb_at (c_gpb (A st)) idx.
+Definition gas_sum_over (st : state) (start en : Z) : Z := holder_sum (c_gpb (A st)) start en 0.
+
+(* the wrong reading: of the records with one index the one appended FIRST answers (a scan from the oldest end that
+   stops at the first record of the greatest index <= idx) *)
+Fixpoint gpb_at_first (rev_gr : list (Z * Z)) (idx : Z) : Z :=
+  match rev_gr with
+  | [] => 0
+  | (i, g) :: t =>
+      if i <=? idx
+      then match t with (j, _) :: _ => if i =? j then gpb_at_first t idx else g | [] => g end
+      else gpb_at_first t idx
+  end.
+
 Definition rec_head (recs : list (Z * list N)) : Z * list N :=
   match recs with r :: _ => r | [] => (0, []) end.
 
@@ -98,6 +115,29 @@ Proof.
   intros [[c1 c2 c3 c4 c5 c6 c7 c8] cm ce]. unfold obsX, designated, ds_latest, contract_of, whitelisted_fee.
   rewrite reinit_X, reinit_pcache. unfold reinit_ext; simpl.
   rewrite aget_reinit_ds, <- (c7 role), (c8 (caddr a)), c3. reflexivity.
+Qed.
+
+(* the look-ups over the incrementally extended history = over the history rebuilt from storage, for every index *)
+Lemma dedup_nil' l : dedup l = [] -> l = [].
+Proof. destruct l as [|[i v] t]; [reflexivity|]. simpl. destruct (dedup t) as [|[j w] t']; [|destruct (i =? j)]; discriminate. Qed.
+
+Lemma gpb_at_dedup' l idx : gpb_at (dedup l) idx = gpb_at l idx.
+Proof.
+  induction l as [|[i v] t IH]; simpl; [reflexivity|].
+  destruct (dedup t) as [|[j w] t'] eqn:E.
+  - apply dedup_nil' in E. subst t. reflexivity.
+  - destruct (i =? j) eqn:Eij.
+    + assert (i = j) by lia. subst j. simpl. destruct (i <=? idx) eqn:E1; [reflexivity|].
+      rewrite <- IH. simpl. rewrite E1. reflexivity.
+    + simpl. destruct (i <=? idx); [reflexivity|]. rewrite <- IH. reflexivity.
+Qed.
+
+Lemma reinit_cgpb st : c_gpb (A (reinit cfg st)) = s_gpb (A st).
+Proof. unfold reinit. destruct (_ =? 0); reflexivity. Qed.
+
+Theorem coherent_gas_per_block st idx : Coh st -> gas_per_block (reinit cfg st) idx = gas_per_block st idx.
+Proof.
+  intros [[c1 c2 c3 c4 c5 c6 c7 c8] cm ce]. unfold gas_per_block. rewrite reinit_cgpb, c4. apply gpb_at_dedup'.
 Qed.
 
 Theorem coherent_obs st : Coh st -> obs (reinit cfg st) = obs st.
